@@ -251,11 +251,20 @@ def _strip_generics(p):
     return "".join(out)
 
 
-def _does_real_work(cb):
+def _does_real_work(cb, n_upvars=0):
+    """The closure calls a function of this crate, or captures variables and builds a tuple / struct from them (a
+    value computed from both the captured context and the payload, e.g. `(cipher, min(own, peer))`)."""
     for bl in cb["blocks"]:
         t = bl["term"]
         if t["k"] == "call" and t.get("callee") and (t["callee"].get("local") or t["callee"].get("resolved_local")):
             return True
+    if n_upvars:
+        for bl in cb["blocks"]:
+            for st in bl["stmts"]:
+                rv = st.get("rv") or {}
+                if rv.get("k") == "aggregate" and rv.get("agg") in ("tuple", "adt") and rv.get("ops") and \
+                        not str(rv.get("adt", "")).endswith(("option::Option", "result::Result")):
+                    return True
     return False
 
 
@@ -280,6 +289,7 @@ def splice_combinator_closures(raw):
         return []
     by_did = {b["did"]: b for b in raw["bodies"]}
     notes = []
+    spliced = set()
     serial = 100000
     for caller in list(raw["bodies"]):
         bi = 0
@@ -304,7 +314,7 @@ def splice_combinator_closures(raw):
             if len(defs) != 1 or defs[0]["rv"].get("agg") != "closure":
                 continue
             cb = by_did.get(defs[0]["rv"].get("closure_did"))
-            if cb is None or not _does_real_work(cb) or cb["did"] == caller["did"]:
+            if cb is None or not _does_real_work(cb, len(defs[0]["rv"].get("ops") or [])) or cb["did"] == caller["did"]:
                 continue
             if cb["arg_count"] != (2 if takes_payload else 1):
                 continue
@@ -362,5 +372,12 @@ def splice_combinator_closures(raw):
             caller["blocks"].append({"stmts": [{"k": "assign", "place": dict(dest), "rv": rv2, "span": span}], "term": {"k": "goto", "target": cont, "span": span}})
             serial += 1
             _inline_one(raw, caller, hit, cb, serial)
+            spliced.add(cb["did"])
             notes.append("closure %s passed to %s was spliced into %s as the explicit match" % (cb["path"], key.split("::")[-1], caller["path"]))
+    if spliced:
+        # a closure whose only use was the combinator call now lives in its caller; drop the separate body (and the
+        # bodies nested in it were copied by _inline_one) so that nothing is counted twice
+        gone_paths = {by_did[d]["path"] for d in spliced}
+        raw["bodies"] = [b for b in raw["bodies"] if b["did"] not in spliced and
+                         not (b.get("kind") == "closure" and any(b["path"].startswith(pp + "::{closure#") for pp in gone_paths))]
     return notes
